@@ -1,6 +1,6 @@
 (* Props/C02.v — every message is laid out on the wire exactly as the pinned protocol schema says. *)
 From FP.Props Require Import Common C03.
-From FP.Theory Require Import Uniform LRenderSound.
+From FP.Theory Require Import Uniform LRenderSound LParseSound.
 From FP.Pinned Require Import Pinned.
 Import Coq.Strings.String.StringSyntax.
 Delimit Scope string_scope with string.
@@ -80,6 +80,15 @@ Proof.
   exact (lrender_sound tables registry0 order_of schemas pinned_layouts pinned_lays_out H_sums t fs fs' b E).
 Qed.
 
+(* (4) and decoding: Decode IS the independent parser of the pinned layout (Spec/LParse.v) - the same function of the
+   bytes, on every byte string, valid or not, into any receiver of the right shape *)
+Theorem C02_decode_is_the_pinned_layout_parser : forall t r buf,
+  receiver_ok t r = true -> decode t r buf = lparse tables order_of pinned_layouts t buf.
+Proof.
+  intros t r buf Hr. rewrite decode_spec by exact Hr.
+  exact (lparse_sound tables order_of schemas pinned_layouts pinned_lays_out t buf).
+Qed.
+
 (* non-vacuity: the SSE frame's pinned layout, and a concrete encoding laid out accordingly *)
 Example C02_sse_frame_layout :
   option_map lt_fields (find (fun lt => lt_id lt =? id_sse_bin_SseBinary) pinned_layouts)
@@ -100,3 +109,4 @@ Proof. vm_compute. reflexivity. Qed.
 Print Assumptions C02_code_behaves_as_schema.
 Print Assumptions C02_schema_is_pinned_layout.
 Print Assumptions C02_encoded_bytes_are_the_pinned_layout_rendered.
+Print Assumptions C02_decode_is_the_pinned_layout_parser.
